@@ -121,6 +121,7 @@ type FnExec struct {
 type returnInfo struct {
 	st   *State
 	vals []Val
+	blk  *ssa.BasicBlock
 }
 
 // Frame is one activation (top-level or inlined).
@@ -1102,7 +1103,7 @@ func (fr *Frame) doReturn(x *ssa.Return, st *State) {
 	for _, r := range x.Results {
 		vals = append(vals, fr.val(r))
 	}
-	fr.rets = append(fr.rets, returnInfo{st: st, vals: vals})
+	fr.rets = append(fr.rets, returnInfo{st: st, vals: vals, blk: x.Block()})
 }
 
 
